@@ -22,7 +22,7 @@ import py7zr
 import py7zr.helpers as H
 from py7zr.exceptions import AbsolutePathError
 
-GEN_DEPS = []
+GEN_DEPS = ["check_archive_path", "canonical_path", "remove_trailing_slash", "remove_relative_path_marker"]
 LEVEL = "proof"
 TRUSTED_BASE = [
     "Coq 8.16.1 kernel, vm_compute (no native_compute); no axioms (Print Assumptions: closed)",
@@ -30,6 +30,10 @@ TRUSTED_BASE = [
     "is_absolute, relative_to, str) and of helpers.canonical_path/is_relative_to/is_path_valid/check_archive_path, "
     "SevenZipFile._sanitize_archive_arcname, _make_file_info(_from_name) file name; hand-written, tied to the code by "
     "the exhaustive correspondence of this check (not by the translator)",
+    "tools/translate.py + theories/PyPrims.v, PyStr.v (semantics of the Python primitives; differential-tested here by "
+    "harness/prims.py): the C16_gen_* theorems are about coq/gen/HelpersPath.v, regenerated from py7zr/helpers.py on this "
+    "run (check_archive_path, canonical_path, remove_trailing_slash, remove_relative_path_marker), with pathlib.Path(..)/"
+    ".parts/.is_absolute()/.anchor mapped to Path.v's pp_* primitives",
     "extraction (ExtrOcamlBasic only) + ocaml/driver.ml for running the model",
     "spec_ok in this file (Python, independent of pathlib) agrees with Path.spec_ok on every enumerated name",
 ]
@@ -489,7 +493,7 @@ def expected_writeall(model, path):
         if p.is_symlink() or p.is_file():
             out.append(model_write_name(model, p))
         elif p.is_dir():
-            if not p.samefile("."):
+            if str(p) != ".":   # arcname is None here; only the bare '.' has no name of its own (as repaired: 703ba71)
                 out.append(model_write_name(model, p))
             for nm in sorted(os.listdir(str(p))):
                 if out and out[-1] is None:
@@ -661,6 +665,71 @@ def check_write(ctx, rep, rng, tier):
         shutil.rmtree(tmp, ignore_errors=True)
 
 
+# ------------------------------------------------------------------ translation validation
+def check_translation(ctx, rep, rng, tier):
+    """the Gallina functions generated from the current py7zr/helpers.py (coq/gen/HelpersPath.v, extracted) against the
+    Python functions they were generated from, on the name sets of this check; and the primitives they are built from
+    against CPython (harness/prims.py)"""
+    import vlib
+    from harness import prims
+    model = ctx["model"]
+    if model is None or "gen_helpers_rows" not in vlib.fn_table():
+        return
+    prims.check_prims(ctx, rep)
+    if model.call("gen_check_archive_path", cps("a")) != [0, 1]:
+        return   # not the executable that contains the generated functions (its build failure is reported by verif.py)
+    quick = tier == "quick"
+    names = sorted(set(alpha_names(4 if quick else 5) + dummy_names(3 if quick else 4) + directed_names()
+                       + random_names(rng, 3000 if quick else 30000)
+                       + ["./", "./.", ".//a", "./a/", "a/./", "/./a", ".", "./" * 3 + "a", "a//", "a/ ", "\\/"]))
+
+    def py(f, n):
+        try:
+            return [0, f(n)]
+        except Exception as e:  # noqa
+            return [1, type(e).__name__]
+
+    cnt = 0
+    for off in range(0, len(names), 256):
+        blk = names[off:off + 256]
+        rows = model.call("gen_helpers_rows", [cps(n) for n in blk])
+        for n, r in zip(blk, rows):
+            got = {"check_archive_path": [r[0][0], r[0][1] == 1 if r[0][0] == 0 else None],
+                   "remove_trailing_slash": [r[1][0], from_cps(r[1][1]) if r[1][0] == 0 else None],
+                   "remove_relative_path_marker": [r[2][0], from_cps(r[2][1]) if r[2][0] == 0 else None]}
+            for fn in got:
+                want = py(getattr(H, fn), n)
+                cnt += 1
+                if got[fn][0] != want[0] or (want[0] == 0 and got[fn][1] != want[1]):
+                    rep.violation("the function translated from helpers.%s disagrees with the Python on %r: generated %r, "
+                                  "Python %r" % (fn, n, got[fn], want), {"kind": "translation", "fn": fn, "name": cps(n)},
+                                  concrete=False, match_keys={"kind": "translation", "fn": fn})
+                    return
+    segs = ["", ".", "..", "a", "a/b", "a/", "/", "//", "///", "/a", "//a", "/a/..", "../a", "a/../..", "/..", "//..",
+            "b/./c", "/foo/boo", "./", "..//..", "c:", "/a//b/", "../../a/..", "a/b/../../../c"]
+    raws = [[]] + [[s] for s in segs] + [[s, t] for s in segs for t in segs]
+    if not quick:
+        raws += [[s, t, u] for s in segs for t in segs[:14] for u in segs[:14]]
+    for rw in raws:
+        p = pathlib.PurePosixPath(*rw)
+        g = model.call("gen_canonical_path", [cps(x) for x in rw])
+        want = py(H.canonical_path, p)
+        cnt += 1
+        ok = g[0] == want[0]
+        if ok and g[0] == 0:
+            gparts = [from_cps(x) for x in model.call("pp_parts", g[1])]
+            gstr = from_cps(model.call("pp_str", g[1]))
+            ok = gparts == list(want[1].parts) and gstr == str(want[1])
+        if not ok:
+            rep.violation("the function translated from helpers.canonical_path disagrees with the Python on Path%r: generated "
+                          "%r, Python %r" % (tuple(rw), g, want), {"kind": "translation", "fn": "canonical_path",
+                                                                  "raws": [cps(x) for x in rw]},
+                          concrete=False, match_keys={"kind": "translation", "fn": "canonical_path"})
+            return
+    rep.extra["translation_validation_cases"] = cnt
+    rep.count(("translation", cnt), nontrivial=True, n=cnt)
+
+
 # ------------------------------------------------------------------ run
 def check_names(ctx, rep, rng, tier):
     model = ctx["model"]
@@ -723,7 +792,7 @@ def run(ctx):
                        "implementation, implementation vs independent spec_ok, and writestr/writef on an in-memory archive; "
                        "write/writeall: every entry of a scratch tree as absolute/relative str/Path. distinct by name / call "
                        "list; non-trivial = non-empty name")
-    for part in (check_path_functions, check_names, check_write):
+    for part in (check_translation, check_path_functions, check_names, check_write):
         try:
             part(ctx, rep, rng, tier)
         except Exception as e:  # noqa
